@@ -349,7 +349,13 @@ impl TerminalRenderer {
 
                 // skip conditions
                 if mark != CellMark::Damaged && (mark == CellMark::Ignored || old == new) {
-                    pos.col += 1;
+                    // unchanged wide character still covers cells that follow it
+                    pos.col += match &new.kind {
+                        CellKind::Char(character) if mark != CellMark::Ignored => {
+                            character.width().unwrap_or(0).max(1)
+                        }
+                        _ => 1,
+                    };
                     continue;
                 }
                 let CellKind::Char(character) = &new.kind else {
